@@ -262,6 +262,16 @@ impl Monitor for C02 {
 
     fn run_case(&mut self, k: u64, ctx: &mut Ctx) {
         let max_plain = self.tier.pick(200_000, 500_000);
+        if k == 11 || k == 21 || k == 31 {
+            // scale: plaintext of several MiB up to beyond 128 MiB
+            let mut r = Rng::derive(self.seed, 0x0206, k, 0);
+            if let Some(st) = streams::scale_stream(&mut r, (k - 11) / 10) {
+                ctx.count("source:scale");
+                ctx.count(&format!("scale:plaintext_{}MiB", st.plain.len() >> 20));
+                Self::judge(&st.bytes, &st.recipe, &mut r, ctx, false);
+            }
+            return;
+        }
         let (label, base, mut r) = if k >= self.n_gen + self.n_comp + self.n_shape + self.n_samples {
             let idx = k - (self.n_gen + self.n_comp + self.n_shape + self.n_samples);
             let mut r = Rng::derive(self.seed, 0x0205, idx, 0);
